@@ -37,13 +37,13 @@ if os.path.exists(extra):
         DESC[(p, int(n))] = tuple(v)
 
 rows = []
-for (prop, n), d in sorted(DESC.items(), key=lambda kv: (kv[0][0].replace("r2-", "") + ("z" if kv[0][0].startswith("r2-") else ""), kv[0][1])):
+for (prop, n), d in sorted(DESC.items(), key=lambda kv: (re.sub(r"^r\d+-", "", kv[0][0]), kv[0][0], kv[0][1])):
     if not d: continue
     slug, what, needs = d
     src = f"/tmp/wt/{prop}"
     dst = f"/verif/seeded/{prop}-m{n}-{slug}"
     tag = prop
-    prop = prop.replace("r2-", "")
+    prop = re.sub(r"^r\d+-", "", prop)
     have_src = os.path.exists(f"{src}/mutant{n}.patch")
     if have_src:
         os.makedirs(dst, exist_ok=True)
@@ -75,7 +75,7 @@ for (prop, n), d in sorted(DESC.items(), key=lambda kv: (kv[0][0].replace("r2-",
         old = meta.get("checks_run", {})
         old.update(det)
         meta["checks_run"] = old
-    meta.update({"breaks_property": prop, "round": 2 if tag.startswith("r2-") else 1, "change": what, "needs_to_manifest": needs,
+    meta.update({"breaks_property": prop, "round": int(tag[1]) if tag.startswith("r") else 1, "change": what, "needs_to_manifest": needs,
                  "source": "independent sub-agent given only the property text and a scratch worktree of /repo",
                  "how_checked": "tools/try_mutant_isolated.sh patch.diff <checks> (scratch worktree of /repo + scratch copy of the simulator built against it); tools/validate_mutant.sh patch.diff demo.rs"})
     caught = [c for c, r in meta.get("checks_run", {}).items() if r["exit"] == 1]
